@@ -6,7 +6,7 @@ from amaranth.lib import wiring
 from amaranth.lib.wiring import In, Out, flipped, connect
 from amaranth.utils import ceil_log2
 
-from . import Multiplexer
+from . import Multiplexer, Signature
 from .reg import Register, Field, FieldAction
 from .. import event
 from ..memory import MemoryMap
@@ -71,7 +71,7 @@ class EventMonitor(wiring.Component):
 
         super().__init__({
             "src": Out(self._monitor.src.signature),
-            "bus": In(self._mux.bus.signature),
+            "bus": In(Signature(addr_width=addr_width, data_width=data_width)),
         })
         self.bus.memory_map = self._mux.bus.memory_map
 
@@ -81,7 +81,7 @@ class EventMonitor(wiring.Component):
         m.submodules.mux     = self._mux
 
         connect(m, flipped(self.src), self._monitor.src)
-        connect(m, self.bus, self._mux.bus)
+        connect(m, flipped(self.bus), self._mux.bus)
 
         with m.If(self._enable.element.w_stb):
             m.d.sync += self._monitor.enable.eq(self._enable.element.w_data)
